@@ -14,6 +14,11 @@ pub const RULE: &str = "cases = accepted connected graphs (both sub-classes: all
 
 pub fn gen_case(t: &mut Tape, tier: Tier) -> Option<Phys> {
     let mo = if t.bool() { 1.0 / 64.0 } else { 0.15 };
+    if t.chance(0.12) {
+        // accepted disconnected graph: physical component + massive vacuum component (edges scattered in index order)
+        let prof = gen::PointProfile { u_w: [0.15, 0.3, 0.3, 0.25], xi_w: [0.0, 1.0, 0.0, 0.0], lambda_tail: 0.0, bm_extreme: 0.0 };
+        return gen::gen_phys_union(t, &gen::PhysOpts { max_e: tier.pick(8, 9), max_l: 6, min_omega: mo, dmax: 6, max_ops: 1, profile: prof });
+    }
     let g = gen::gen_phys_graph(t, tier.pick(8, 9), 8, mo, 6)?;
     if g.nedges() < 2 {
         return None;
@@ -37,7 +42,7 @@ pub fn gen_case(t: &mut Tape, tier: Tier) -> Option<Phys> {
 
 fn check_d<const D: usize>(c: &Phys, ctx: &mut Ctx) -> Result<(), Failure> {
     phys::classes_label(c, ctx);
-    let (ne, _nl) = phys::validate(c)?;
+    let (ne, _nl) = phys::validate_opt(c, true)?;
     let g = &c.g;
     if ne < 2 {
         fail!("bad-case", "C06 needs at least two edges");
@@ -161,7 +166,7 @@ fn check_d<const D: usize>(c: &Phys, ctx: &mut Ctx) -> Result<(), Failure> {
     Ok(())
 }
 pub fn check(c: &Phys, ctx: &mut Ctx) -> Result<(), Failure> {
-    phys::validate(c)?;
+    phys::validate_opt(c, true)?;
     with_d!(c.g.d, check_d(c, ctx))
 }
 pub fn run(tier: Tier, seed: u64) -> i32 {
